@@ -198,8 +198,11 @@ def run_pickle_twin(case, ctx):
             ctx.fail("same-outcome", f"original: {ka} {va!r}; restored: {kb} {vb!r}")
             continue
         if ka == "crash":
+            # original and restored copy crash alike: pickling is not to blame (such
+            # crashes are C01's search_crashes)
             ctx.check(type(va) is type(vb), "same-outcome", f"crash types differ: {va!r} vs {vb!r}")
-            ctx.fail("resume-crash", f"continuing the interrupted search raised {describe_exc(va)}", f"resume-crash/{type(va).__name__}/{describe_exc(va).split(' at ')[-1]}")
+            ctx.label("continuation-crashes-on-both")
+            ctx.count("search_crashes:" + describe_exc(va)[:100])
         elif ka == "spec":
             # Which proof tree is picked depends on the iteration order of sets,
             # which pickle does not preserve: the two specifications need not be
@@ -248,6 +251,7 @@ def run_resume(case, ctx):
         clock.time = time_with_trigger
         interruptions = 0
         spec = None
+        crash = None
         ks = list(case["ks"]) + [None]
         for k in ks:
             target[0] = None if k is None else q.count + k
@@ -260,13 +264,32 @@ def run_resume(case, ctx):
             except refusals:
                 break
             except Exception as e:
-                ctx.fail(
-                    "resume-crash",
-                    f"auto_search after {interruptions} interruptions raised {describe_exc(e)}",
-                    f"resume-crash/{type(e).__name__}/{describe_exc(e).split(' at ')[-1]}",
-                )
-                return
+                crash = e
+                break
         requiet()
+        if crash is not None:
+            # Does the same search crash the same way when it is NOT interrupted?  Then the
+            # interruption is not to blame (C01 counts such crashes as search_crashes).
+            same = False
+            try:
+                _, _, fresh = make_searcher(case)
+                fresh.auto_search(max_expansion_time=float(case.get("final_time", 30.0)))
+            except refusals:
+                pass
+            except Exception as e2:
+                same = type(e2) is type(crash)
+            finally:
+                requiet()
+            if same:
+                ctx.label("crash-also-without-interruption")
+                ctx.count("search_crashes:" + describe_exc(crash)[:100])
+                return
+            ctx.fail(
+                "resume-crash",
+                f"auto_search after {interruptions} interruptions raised {describe_exc(crash)}; the uninterrupted search does not",
+                f"resume-crash/{type(crash).__name__}/{describe_exc(crash).split(' at ')[-1]}",
+            )
+            return
         ctx.label(f"interruptions:{min(interruptions, 4)}", "db:" + case["db"])
         if spec is None:
             ctx.label("no-spec")
@@ -290,8 +313,16 @@ def _drain(searcher, max_levels=40):
 
 def _universe(db):
     """Class-level view of everything a recording rule db was given."""
+    from comb_spec_searcher.strategies.rule import VerificationRule
+
     out = set()
     for start, ends, rule, _ in db.log:
+        if isinstance(rule, VerificationRule):
+            # Which verification strategy gets to verify a class depends on whether the
+            # class was already marked verified by an earlier has_specification poll
+            # (try_verify stops at the first strategy once is_verified holds): that is
+            # schedule-dependent by design and not work handed out by the queue.
+            continue
         out.add((repr(rule.comb_class), tuple(repr(c) for c in rule.children), repr(rule.strategy)))
     return out
 
